@@ -336,6 +336,10 @@ def apply_model(sym, n, f, vals, mut_idx, st):
         return V(("fmtargs", (("txt", vals[0][2]),) if vals[0][0] == "lit" else (("dyn", vals[0]),), ()))
     if p == "std::fmt::format" and len(vals) == 1:
         return V(("format", vals[0]))
+    # calling a closure / fn item through the Fn* traits (a generic `f: impl Fn(..)` parameter applied to arguments)
+    if p in ("std::ops::Fn::call", "std::ops::FnMut::call_mut", "std::ops::FnOnce::call_once") and len(vals) == 2 \
+            and vals[0][0] in ("closure", "fnref") and vals[1][0] == "tuple":
+        return sym.apply(vals[0], list(vals[1][1]), st, n)
     if p.startswith("lazy_static::lazy::Lazy") and last == "get" and len(vals) == 2 and vals[1][0] == "fnref":
         # lazy_static: the static's value is the value its initialiser returns (run once; trusted base)
         return sym.apply(vals[1], [], st, n)
